@@ -69,13 +69,14 @@ def clause1(P, res):
             if e.method == "push_back" and "MpmcChannelInternal" in e.callee_full:
                 n += 1
                 key = f"{b.id}:push_back"
-                notfull = _edges(b, lambda x: x.method == "is_full", False)
+                # the logical fullness test: MpmcChannelInternal::is_full(capacity) — not the physical ring's is_full() (rounded up to a power of two)
+                notfull = _edges(b, lambda x: x.method == "is_full" and "MpmcChannelInternal" in x.callee_full and len(x.args) >= 2, False)
                 # `guard.len() < capacity`
                 for blk in range(len(b.blocks)):
                     s = None if b.is_cleanup(blk) else b.switch_source(blk)
                     if s and s["kind"] == "cmp" and s["op"] in ("Lt", "Le"):
                         pa = b.producer_call(s["a"])
-                        if pa is not None and pa.method == "len":
+                        if pa is not None and pa.method == "len" and CAP_RX.search(b.path_of_operand(s["b"])):
                             notfull.extend(b.edges_by_label(blk).get("false" if s.get("neg") else "true", []))
                 if e.pos not in held:
                     res.violated(rid, key, f"ring push at {e.loc} outside the channel mutex", where=e.loc)
@@ -231,6 +232,35 @@ def clause3(P, res):
         res.violated(rid, "capacity-comparisons", f"expected >= 20 occupancy/capacity comparisons, found {n}")
 
 
+def clause4(P, res):
+    rid = "C03-4"
+    res.rule(rid, "one-shot state transitions use the strong compare-exchange: outside the hybrid locks' acquisition fast paths (whose callers loop), no channel code "
+                  "calls compare_exchange_weak — a weak CAS may fail spuriously, and every CAS in the channel state machines (oneshot EMPTY->WRITING, waiter "
+                  "WAITING->terminal, park flags) reports its failure as a definite outcome (`Sent(value)`, `lost the race`) instead of retrying")
+    weak = strong = 0
+    for b in P.bodies.values():
+        if not b.id.startswith("fibre::") or "::tests::" in b.id or not common.in_scope(b.id):
+            continue
+        for e in b.calls():
+            if not e.is_atomic:
+                continue
+            if e.method == "compare_exchange":
+                strong += 1
+            elif e.method == "compare_exchange_weak":
+                weak += 1
+                key = f"{b.id}:compare_exchange_weak"
+                in_sync = b.id.startswith("fibre::sync::") or b.id.startswith("fibre::<sync::")
+                looped = e.pos in b.pos_reach_set(e.pos)
+                if in_sync or looped:
+                    res.holds(rid, key, "lock fast path (callers retry)" if in_sync else "inside a retry loop", where=e.loc)
+                else:
+                    res.violated(rid, key, f"compare_exchange_weak at {e.loc} is not retried: a spurious failure is reported as a lost race (e.g. the first oneshot send "
+                                 "fails with Sent(value) on an empty channel)", where=e.loc)
+    res.holds(rid, "strong-cas-sites", f"{strong} strong compare_exchange sites in channel code, {weak} weak", where="channels/src", nontrivial=False)
+    if strong < 30 or weak < 1:
+        res.violated(rid, "cas-census", f"expected >= 30 strong and >= 1 weak compare-exchange sites (matcher self-check), found {strong}/{weak}")
+
+
 def run(P, ctx):
     res = Result("C03")
     res.extra["explanation"] = ("Admission-gate shape of value-carrying commits where the admission predicate is a call (mpsc-bounded credit, mpmc-bounded fullness under "
@@ -238,4 +268,5 @@ def run(P, ctx):
     clause1(P, res)
     clause2(P, res)
     clause3(P, res)
+    clause4(P, res)
     return res
